@@ -57,6 +57,7 @@ def run(ctx):
     rule_a(ctx, cr)
     rule_b(ctx, cr)
     rule_c(ctx, cr)
+    rule_zone(ctx, cr)
     rule_d(ctx, cr)
 
 
@@ -227,6 +228,34 @@ def rule_c(ctx, cr):
               "print-list/trailing-separator", pl.span,
               "';' and ',' clear the linefeed flag, an expression sets it (%s)" % vals,
               "the linefeed flag is assigned %s" % vals)
+
+
+def rule_zone(ctx, cr):
+    """TAB(-z) (what ',' compiles to): advance by z - (column mod z), i.e. always to the START
+    of the next zone, a full zone when already on a boundary"""
+    t = cr.need_fn("mach::function::Function::tab")
+    ctx.touch(t)
+    rems = [(b, st) for b, i, st in t.assigns()
+            if st["rv"]["k"] == "binop" and st["rv"]["op"] == "Rem"]
+    ok = len(rems) == 1
+    if ok:
+        b, st = rems[0]
+        l, r = t.describe(st["rv"]["l"]), t.describe(st["rv"]["r"])
+        ok = l == "arg:1" and "Neg" in r
+        subs = [s2 for b2, i2, s2 in t.assigns() if s2["rv"]["k"] == "binop"
+                and s2["rv"]["op"].startswith("Sub") and "Rem" in t.describe(s2["rv"]["r"])]
+        ok = ok and len(subs) == 1 and t.describe(subs[0]["rv"]["l"]) == r
+        others = [s2["rv"]["op"] for b2, i2, s2 in t.assigns() if s2["rv"]["k"] == "binop"
+                  and s2["rv"]["op"].split("With")[0] in ("Mul", "Div")]
+        ok = ok and not others
+        neg = any(op == "Lt" and tr and t.describe(rr) == "const:0"
+                  for op, ll, rr, tr in t.cmp_conds_at(b))
+        ok = ok and neg
+    ctx.check(ok, "C11.c", "tab/zone-advance", t.span,
+              "for a negative argument the padding is zone - (column mod zone)",
+              "TAB with a negative argument no longer pads by `zone - column %% zone`: ',' on a "
+              "zone boundary (a leading comma, two commas in a row, an item ending on column 14) "
+              "emits no padding or the wrong amount")
 
 
 def rule_d(ctx, cr):
